@@ -1597,7 +1597,7 @@ impl TransactionBuilder {
     }
 
     pub fn get_reference_inputs(&self) -> TransactionInputs {
-        let mut inputs: HashSet<TransactionInput> = HashSet::new();
+        let mut inputs: BTreeSet<TransactionInput> = BTreeSet::new();
 
         let mut add_ref_inputs_set = |ref_inputs: TransactionInputs| {
             for input in &ref_inputs {
